@@ -216,7 +216,7 @@ func Enum(c explore.Chooser) *prog.Program {
 	rootPath := prog.Base() + "/enums"
 	subPath := rootPath + "/sub"
 
-	loc := s.Pick("T1.loc", "analysed-file", "other-file", "sub-package", "both-packages")
+	loc := s.Pick("T1.loc", "analysed-file", "other-file", "sub-package", "both-packages", "module-root-package")
 	t1 := enumType(s, "T1", "Level", "Lv", "int")
 	second := s.Pick("T2", "absent", "present", "present-in-sub", "present-in-same-named-package")
 	t2 := ""
@@ -233,6 +233,7 @@ func Enum(c explore.Chooser) *prog.Program {
 
 	t1ref := "Level"
 	needSub := false
+	modRoot := ""
 	switch loc {
 	case "analysed-file":
 		a.WriteString(t1)
@@ -242,6 +243,10 @@ func Enum(c explore.Chooser) *prog.Program {
 		sub.WriteString(t1)
 		t1ref = "sub.Level"
 		needSub = true
+	case "module-root-package":
+		// the package whose import path is exactly the two-element prefix of the tree
+		modRoot = "package proj\n\n" + t1
+		t1ref = "proj.Level"
 	case "both-packages":
 		a.WriteString(t1)
 		// same type name, its own constants, in the sub package
@@ -302,14 +307,25 @@ func Enum(c explore.Chooser) *prog.Program {
 
 	var hdr strings.Builder
 	hdr.WriteString("package enums\n\n")
-	if needSub && needTwin {
-		fmt.Fprintf(&hdr, "import (\n\t%q\n\ttwin %q\n)\n\n", subPath, rootPath+"/twin/sub")
-	} else if needSub {
-		fmt.Fprintf(&hdr, "import %q\n\n", subPath)
+	var imps []string
+	if modRoot != "" {
+		imps = append(imps, fmt.Sprintf("\t%q", prog.Module))
+	}
+	if needSub {
+		imps = append(imps, fmt.Sprintf("\t%q", subPath))
+	}
+	if needTwin {
+		imps = append(imps, fmt.Sprintf("\ttwin %q", rootPath+"/twin/sub"))
+	}
+	if len(imps) > 0 {
+		fmt.Fprintf(&hdr, "import (\n%s\n)\n\n", strings.Join(imps, "\n"))
 	}
 	asrc := hdr.String() + strings.TrimPrefix(a.String(), "package enums\n\n") + "type Holder struct {\n" + strings.Join(fields, "\n") + "\n}\n"
 
 	p := &prog.Program{Family: "F-enum", Analysed: []string{"a.go"}, Features: s.Feats}
+	if modRoot != "" {
+		p.Pkgs = append(p.Pkgs, &prog.Pkg{Path: prog.Module, Name: "proj", Files: []prog.File{{Name: "level.go", Src: modRoot}}})
+	}
 	if needSub {
 		p.Pkgs = append(p.Pkgs, &prog.Pkg{Path: subPath, Name: "sub", Files: []prog.File{{Name: "sub.go", Src: sub.String()}}})
 	}
